@@ -129,9 +129,40 @@ fn permute_groups(
     rec(groups, g, 0, input, capacity, want)
 }
 
-/// Runs the real planner on `input`; returns a violation description, if any.
-/// `small`: allow the brute-force search over tie orders.
+/// An honest iterator whose `size_hint` is any of the answers the trait allows
+/// (lower <= length <= upper): the planner takes `impl IntoIterator`, so what a
+/// lazy adaptor (filter, flat_map, from_fn, a streamed directory listing) says
+/// about its length is part of the input.
+struct Hinted {
+    inner: std::vec::IntoIter<E>,
+    form: u8,
+}
+
+pub const FORMS: [&str; 5] = ["vec", "hint(0,None)", "hint(0,Some(n))", "hint(n/2,Some(n+3))", "hint(n,None)"];
+
+impl Iterator for Hinted {
+    type Item = E;
+    fn next(&mut self) -> Option<E> {
+        self.inner.next()
+    }
+    fn size_hint(&self) -> (usize, Option<usize>) {
+        let n = self.inner.len();
+        match self.form {
+            1 => (0, None),
+            2 => (0, Some(n)),
+            3 => (n / 2, Some(n + 3)),
+            _ => (n, None),
+        }
+    }
+}
+
 pub fn check_one(input: &[(u64, bool)], capacity: usize, small: bool) -> Result<bool, String> {
+    check_form(input, capacity, small, 0)
+}
+
+/// Runs the real planner on `input`; returns a violation description, if any.
+/// `small`: allow the brute-force search over tie orders.  `form`: see `FORMS`.
+pub fn check_form(input: &[(u64, bool)], capacity: usize, small: bool, form: u8) -> Result<bool, String> {
     let n = input.len();
     DROPS.with(|d| {
         let mut d = d.borrow_mut();
@@ -148,7 +179,11 @@ pub fn check_one(input: &[(u64, bool)], capacity: usize, small: bool) -> Result<
         })
         .collect();
     let result = std::panic::catch_unwind(std::panic::AssertUnwindSafe(|| {
-        Update::new(entries, capacity)
+        if form == 0 {
+            Update::new(entries, capacity)
+        } else {
+            Update::new(Hinted { inner: entries.into_iter(), form }, capacity)
+        }
     }));
     let update = match result {
         Ok(u) => u,
@@ -235,6 +270,12 @@ pub fn check_one(input: &[(u64, bool)], capacity: usize, small: bool) -> Result<
     ))
 }
 
+fn case_json_form(input: &[(u64, bool)], capacity: usize, form: u8) -> Value {
+    let mut v = case_json(input, capacity);
+    v["form"] = json!(form);
+    v
+}
+
 fn case_json(input: &[(u64, bool)], capacity: usize) -> Value {
     json!({
         "entries": input.iter().map(|&(r, a)| json!([r.to_string(), a])).collect::<Vec<_>>(),
@@ -259,6 +300,10 @@ fn parse_case(case: &Value) -> (Vec<(u64, bool)>, usize) {
 }
 
 fn record(rep: &mut Report, input: &[(u64, bool)], capacity: usize, small: bool) {
+    record_form(rep, input, capacity, small, 0)
+}
+
+fn record_form(rep: &mut Report, input: &[(u64, bool)], capacity: usize, small: bool, form: u8) {
     rep.evaluations += 1;
     rep.states += 1;
     rep.transitions += 1;
@@ -273,7 +318,10 @@ fn record(rep: &mut Report, input: &[(u64, bool)], capacity: usize, small: bool)
     if nontrivial {
         rep.count("nontrivial_count", 1);
     }
-    match check_one(input, capacity, small) {
+    if form != 0 {
+        rep.count("lazy_input_cases", 1);
+    }
+    match check_form(input, capacity, small, form) {
         Ok(tie_dependent) => {
             if tie_dependent {
                 rep.count("accepted_under_non_input_tie_order", 1);
@@ -293,8 +341,8 @@ fn record(rep: &mut Report, input: &[(u64, bool)], capacity: usize, small: bool)
             };
             rep.violation(
                 format!("planner:{}", sig),
-                format!("n={} capacity={}: {}", n, capacity, msg),
-                case_json(input, capacity),
+                format!("n={} capacity={} input as {}: {}", n, capacity, FORMS[form as usize], msg),
+                case_json_form(input, capacity, form),
             );
         }
     }
@@ -302,13 +350,16 @@ fn record(rep: &mut Report, input: &[(u64, bool)], capacity: usize, small: bool)
 
 pub fn run(tier: Tier, shard: Shard, rep: &mut Report) {
     let max_n: usize = if tier == Tier::Quick { 7 } else { 8 };
+    let lazy_n: usize = if tier == Tier::Quick { 5 } else { 7 };
     rep.rule = format!(
         "every sequence of n <= {} entries over 4 ranks x 2 access flags x every capacity 0..=n_max+1 (and, for n <= 4, capacities isize::MAX-1 .. isize::MAX+1, usize::MAX-1, usize::MAX), \
          fed to the real second_chance::Update::new and compared with the classical clock queue under \
          some order of equal ranks (input order, then the order read off the output, then brute force over \
-         tie-group permutations); plus enumerated large families (thorough). Non-trivial = n > capacity \
+         tie-group permutations); for n <= {} the same entries are also handed over as a lazy iterator under each of \
+         4 size_hint answers (0,None) (0,Some(n)) (n/2,Some(n+3)) (n,None) x capacities 0..=n+1 and usize::MAX; \
+         plus enumerated large families (thorough). Non-trivial = n > capacity \
          and (a tie or an accessed entry is present). All cases are distinct by construction.",
-        max_n
+        max_n, lazy_n
     );
     rep.assumptions = vec![
         "the Entry implementation used by raw_cache (mtime rank, atime>=mtime flag) is covered by C07, not here".into(),
@@ -335,6 +386,15 @@ pub fn run(tier: Tier, shard: Shard, rep: &mut Report) {
             if n <= 4 {
                 for &capacity in &huge {
                     record(rep, &input, capacity, true);
+                }
+            }
+            // the same entries handed over lazily, under every size_hint an honest iterator may give
+            if n <= lazy_n {
+                for form in 1..FORMS.len() as u8 {
+                    for capacity in 0..=(n + 1) {
+                        record_form(rep, &input, capacity, true, form);
+                    }
+                    record_form(rep, &input, usize::MAX, true, form);
                 }
             }
             for capacity in 0..=(max_n + 1) {
@@ -389,5 +449,6 @@ pub fn run(tier: Tier, shard: Shard, rep: &mut Report) {
 
 pub fn replay(case: &Value, rep: &mut Report) {
     let (input, cap) = parse_case(case);
-    record(rep, &input, cap, input.len() <= 8);
+    let form = case["form"].as_u64().unwrap_or(0) as u8;
+    record_form(rep, &input, cap, input.len() <= 8, form);
 }
